@@ -56,7 +56,15 @@ func (g *psGen) plan() (sw string, vals []string, sel int) {
 		g.wrappers = append(g.wrappers, Wrapper{Switch: sw, Val: val, Cases: vals, Intended: 0})
 		return sw, vals, -1
 	}
-	byMatch := r.Chance(1, 2)
+	// a case value is a single identifier or integer token: a switch value that is not
+	// one (for instance one that contains '=') can only be served by '_'
+	simple := val != ""
+	for _, ch := range val {
+		if !(ch == '_' || ch >= '0' && ch <= '9' || ch >= 'a' && ch <= 'z' || ch >= 'A' && ch <= 'Z') {
+			simple = false
+		}
+	}
+	byMatch := r.Chance(1, 2) && simple
 	withDefault := !byMatch || r.Chance(1, 2)
 	vals = others
 	selName := val
